@@ -39,6 +39,10 @@ pub struct RunResult {
     pub monitors: Monitors,
     pub n_steps: u32,
     pub log: Vec<(u32, Obs)>,
+    pub journal: Vec<hyperqueue::server::event::Event>,
+    pub prune_points: Vec<(usize, Vec<u32>, Vec<u32>)>,
+    pub restore_error: Option<String>,
+    pub n_restarts: u32,
 }
 
 pub async fn apply(sim: &mut Sim, action: &Action) {
@@ -205,7 +209,15 @@ pub async fn run(source: Source, drain: bool) -> RunResult {
     }
     let n_steps = sim.shared.borrow().step;
     let log = std::mem::take(&mut sim.shared.borrow_mut().log);
+    let journal = std::mem::take(&mut sim.journal);
+    let prune_points = std::mem::take(&mut sim.prune_points);
+    let restore_error = sim.restore_error.clone();
+    let n_restarts = sim.n_restarts;
     RunResult {
+        journal,
+        prune_points,
+        restore_error,
+        n_restarts,
         seed,
         actions,
         outcome,
